@@ -190,3 +190,24 @@ Theorem C05_ipa_batch_one_false :
     iwsum d i (pre ++ (w, chs, pf) :: post) <> f0.
 Proof. exact @iwsum_one_false. Qed.
 Print Assumptions C05_ipa_batch_one_false.
+
+(* Marlin-PST13 batch_check (free-module view), for proofs with one witness per variable: the verdict is exactly "every coordinate
+   of the randomizer-weighted sum of the groups' single-point residuals vanishes" (first randomizer 1, the others from the
+   verifier's RNG) *)
+From PC Require Import Schemes.PST13 Schemes.PST13H Schemes.PST13Batch Proofs.PST13BatchFacts Proofs.PST13BatchSum.
+Theorem C05_pst13_batch_is_weighted_sum :
+  forall (FO : FieldOps) (FL : FieldLaws FO) nv betas cs qs ev proofs chal vtape b rest dr,
+    Forall (fun pf => length (pp_w pf) = nv) proofs ->
+    pst_batch_check nv betas cs qs ev proofs chal vtape = Ok (b, rest, dr) ->
+    exists ws, (length ws <= length (groups qs))%nat /\ map (fun x => fst (fst x)) ws = firstn (length ws) (f1 :: vtape) /\
+               (b = true <-> forall i, pwsum betas i ws = f0).
+Proof. exact @pst_batch_is_weighted_sum. Qed.
+Print Assumptions C05_pst13_batch_is_weighted_sum.
+
+Theorem C05_pst13_batch_one_false :
+  forall (FO : FieldOps) (FL : FieldLaws FO) betas i pre w t pf post,
+    (forall x, In x (pre ++ post) -> resid betas i (snd (fst x)) (snd x) = f0) ->
+    w <> f0 -> resid betas i t pf <> f0 ->
+    pwsum betas i (pre ++ (w, t, pf) :: post) <> f0.
+Proof. exact @pwsum_one_false. Qed.
+Print Assumptions C05_pst13_batch_one_false.
